@@ -126,6 +126,25 @@ func (g *gen) flagged() {
 		x.P.Parts = []PatPart{{Const: "PREFIX"}, {Lit: `(\d+)`}}
 		p.Body = []*Stmt{cond(match(x), &Stmt{Op: "add", M: a, Ty: TInt, E: cap1(x, TInt)}, inc(b))}
 		p.ExtraLines = []string{x.P.Word + " 5"}
+	case FlagStrCmpGeneric:
+		// /x (\S+) (\S+)/ { tolower($1) < tolower($2) { a++ } }   on "x 10 9" and "x 10 abc"
+		x := g.plainPat(Group{Ty: TStr, Re: `\S+`}, Group{Ty: TStr, Re: `\S+`})
+		lo := func(i int) *Expr {
+			return &Expr{Op: "tolower", Ty: TStr, A: &Expr{Op: "cap", Ty: TStr, Pat: x, Grp: i}}
+		}
+		sym := vlib.Pick(r, []string{"<", "=="})
+		p.Body = []*Stmt{cond(match(x), inc(b), cond(&Expr{Op: "cmp", Ty: TBool, CT: TStr, Sym: sym, A: lo(1), B: lo(2)}, inc(a)), inc(b))}
+		p.ExtraLines = []string{x.P.Word + " 10 9", x.P.Word + " 10 abc", x.P.Word + " 1.0 1"}
+	case FlagDecoNested:
+		// def d { /x (?P<v>\d+)/ { next } }   @d { /y/ { @d { b++ } }  a += $v }
+		x := g.plainPat(Group{Name: "v", Ty: TInt, Re: `\d+`})
+		y := g.plainPat()
+		d := &DecoDef{Name: "deco0", Body: []*Stmt{cond(match(x), &Stmt{Op: "next"})}}
+		p.Decos = []*DecoDef{d}
+		p.Body = []*Stmt{{Op: "deco", Deco: d, Then: []*Stmt{
+			cond(match(y), &Stmt{Op: "deco", Deco: d, Then: []*Stmt{inc(b)}}),
+			{Op: "add", M: a, Ty: TInt, E: cap1(x, TInt)}}}}
+		p.ExtraLines = []string{x.P.Word + " 5", x.P.Word + " 7 " + y.P.Word}
 	default:
 		panic("gen: unknown flag " + g.cfg.Flag)
 	}
